@@ -1,0 +1,230 @@
+//go:build verif
+
+// Contracts of package proto for the deductive verification in /verif (comment-only; compiled out
+// unless the build tag "verif" is set, and even then it contains no code).
+//
+// Ghost state (declared in /verif/contracts/external.contracts): the byte stream of the parser's reader,
+// S_in[0..S_end) with cursor S_pos; bytes.Buffer contents buf_len/buf_data.
+
+package proto
+
+//@ spec func byteType(b int) int = (b == 43 ? 0 : (b == 45 ? 1 : (b == 58 ? 2 : (b == 36 ? 3 : 4))))
+//@ spec func isTypeByte(b int) bool = (b == 43 || b == 45 || b == 58 || b == 36 || b == 42)
+//@ spec func typeByte(t int) int = (t == 0 ? 43 : (t == 1 ? 45 : (t == 2 ? 58 : (t == 3 ? 36 : 42))))
+
+//@ invariant_struct Array: 0 <= this.index && this.index <= len(this.msgs)
+
+// ---------------------------------------------------------------- type.go
+
+//@ func parseMessageType
+//@ ensures {C01} result1 <==> isTypeByte(b)
+//@ ensures {C01} result1 ==> result0 == byteType(b)
+
+//@ func messageTypeToByte
+//@ ensures {C01} result1 <==> (0 <= t && t <= 4)
+//@ ensures {C01} result1 ==> result0 == typeByte(t)
+
+// ---------------------------------------------------------------- message.go
+
+//@ func NewMessageWithType
+//@ assigns nothing
+//@ ensures result != nil && fresh(result)
+//@ ensures result.Type == t && result.bytes == nil && result.array == nil
+
+//@ func newMessageWithTypeByte
+//@ assigns nothing
+//@ ensures err == nil <==> isTypeByte(b)
+//@ ensures err == nil ==> result0 != nil && fresh(result0) && result0.Type == byteType(b) && result0.bytes == nil && result0.array == nil
+//@ ensures err != nil ==> result0 == nil
+
+//@ spec func isStr(t int) bool = (t == 0 || t == 3)
+//@ spec func isNum(t int) bool = (t == 0 || t == 2 || t == 3)
+
+//@ func (*Message).IsType
+//@ assigns nothing
+//@ ensures result == (msg.Type == t)
+
+//@ func (*Message).IsString
+//@ assigns nothing
+//@ ensures result == (msg.Type == StringMessage)
+
+//@ func (*Message).IsError
+//@ assigns nothing
+//@ ensures result == (msg.Type == ErrorMessage)
+
+//@ func (*Message).IsInteger
+//@ assigns nothing
+//@ ensures result == (msg.Type == IntegerMessage)
+
+//@ func (*Message).IsBulk
+//@ assigns nothing
+//@ ensures result == (msg.Type == BulkMessage)
+
+//@ func (*Message).IsArray
+//@ assigns nothing
+//@ ensures result == (msg.Type == ArrayMessage)
+
+//@ func (*Message).IsNil
+//@ assigns nothing
+//@ ensures result == (msg.Type == BulkMessage && msg.bytes == nil)
+
+//@ func (*Message).Bytes
+//@ assigns nothing
+//@ ensures result0 == msg.bytes && err == nil
+
+//@ func (*Message).SetBytes
+//@ assigns msg.bytes
+//@ ensures result == msg && msg.bytes == bytes
+
+//@ func (*Message).SetArray
+//@ assigns msg.array
+//@ ensures result == msg && msg.array == array
+
+//@ func (*Message).String
+//@ assigns nothing
+//@ ensures err == nil <==> (isStr(msg.Type) && msg.bytes != nil)
+//@ ensures err == nil ==> result0 == string(msg.bytes)
+//@ ensures err != nil ==> result0 == ""
+//@ ensures isStr(msg.Type) && msg.bytes == nil ==> err == ErrNil
+//@ ensures err != nil ==> !errors.Is(err, ErrEOM)
+
+//@ func (*Message).Integer
+//@ assigns nothing
+//@ ensures err == nil <==> (isNum(msg.Type) && atoiOK(string(msg.bytes)))
+//@ ensures err == nil ==> result0 == atoi(string(msg.bytes))
+//@ ensures err != nil ==> result0 == 0
+//@ ensures err != nil ==> !errors.Is(err, ErrEOM)
+
+//@ func (*Message).Array
+//@ assigns nothing
+//@ ensures msg.Type == ArrayMessage ==> result0 == msg.array && err == nil
+//@ ensures msg.Type != ArrayMessage ==> result0 == nil && err != nil
+
+// ---------------------------------------------------------------- array.go
+
+//@ func NewArray
+//@ assigns nothing
+//@ ensures result != nil && fresh(result) && result.index == 0 && len(result.msgs) == 0
+
+//@ func (*Array).Size
+//@ assigns nothing
+//@ ensures result == len(array.msgs)
+
+//@ func (*Array).Next
+//@ assigns array.index
+//@ ensures err == nil
+//@ ensures old(array.index) <  len(array.msgs) ==> result0 == old(array.msgs[array.index]) && array.index == old(array.index) + 1
+//@ ensures old(array.index) >= len(array.msgs) ==> result0 == nil && array.index == old(array.index)
+
+//@ func (*Array).NextMessage
+//@ assigns array.index
+//@ ensures (err == nil && result0 != nil) || (err == ErrEOM && result0 == nil)
+//@ ensures old(array.index) <  len(array.msgs) ==> result0 == old(array.msgs[array.index]) && array.index == old(array.index) + 1
+//@ ensures old(array.index) >= len(array.msgs) ==> result0 == nil && array.index == old(array.index)
+
+//@ func (*Array).NextString
+//@ assigns array.index
+//@ ensures old(array.index) >= len(array.msgs) ==> err == ErrEOM && array.index == old(array.index)
+//@ ensures old(array.index) <  len(array.msgs) ==> array.index == old(array.index) + 1
+//@ ensures err == ErrEOM <==> (old(array.index) >= len(array.msgs) || old(array.msgs[array.index]) == nil)
+//@ ensures err == nil ==> old(array.index) < len(array.msgs) && old(array.msgs[array.index]) != nil
+//@ ensures err == nil <==> (old(array.index) < len(array.msgs) && old(array.msgs[array.index]) != nil && isStr(old(array.msgs[array.index].Type)) && old(array.msgs[array.index].bytes) != nil)
+//@ ensures err == nil ==> result0 == old(string(array.msgs[array.index].bytes))
+//@ ensures err != nil ==> result0 == ""
+//@ ensures err != nil ==> !errors.Is(err, ErrEOM) || err == ErrEOM
+
+//@ func (*Array).NextInteger
+//@ assigns array.index
+//@ ensures old(array.index) >= len(array.msgs) ==> err == ErrEOM && array.index == old(array.index)
+//@ ensures old(array.index) <  len(array.msgs) ==> array.index == old(array.index) + 1
+//@ ensures err == ErrEOM <==> (old(array.index) >= len(array.msgs) || old(array.msgs[array.index]) == nil)
+//@ ensures err == nil <==> (old(array.index) < len(array.msgs) && old(array.msgs[array.index]) != nil && isNum(old(array.msgs[array.index].Type)) && atoiOK(old(string(array.msgs[array.index].bytes))))
+//@ ensures err == nil ==> result0 == atoi(old(string(array.msgs[array.index].bytes)))
+//@ ensures err != nil ==> result0 == 0
+//@ ensures err != nil ==> !errors.Is(err, ErrEOM) || err == ErrEOM
+
+// ---------------------------------------------------------------- parser.go
+
+//@ func (*Parser).nextLengthBytes
+//@ requires parser.reader != nil
+//@ requires 0 <= S_pos && S_pos <= S_end && S_end <= 17592186044416
+//@ requires 0 <= num && num <= MaxBulkLength
+//@ flag alloc_bounded_by MaxBulkLength + 2
+//@ assigns S_pos
+//@ ensures {C06,C11} old(S_pos) <= S_pos && S_pos <= S_end
+//@ ensures {C01,C02} err == nil ==> len(result0) == num
+//@ ensures {C01} err == nil ==> forall i int :: 0 <= i && i < num ==> result0[i] == S_in[old(S_pos)+i]
+//@ ensures {C02,C11} err == nil ==> S_pos == old(S_pos) + num + 2
+//@ ensures {C01,C02} err == nil ==> S_in[old(S_pos)+num] == 13 && S_in[old(S_pos)+num+1] == 10
+//@ ensures {C06} err != nil ==> result0 == nil
+//@ ensures {C06} err == nil ==> result0 != nil
+//@ loop 0
+//@   invariant 0 <= totalRead && totalRead <= n && n == num + 2
+//@   invariant S_pos == old(S_pos) + totalRead && S_pos <= S_end
+//@   invariant forall i int :: 0 <= i && i < totalRead ==> buf[i] == S_in[old(S_pos)+i]
+//@   decreases n - totalRead
+
+//@ func (*Parser).nextLineBytes
+//@ requires parser.reader != nil
+//@ requires 0 <= S_pos && S_pos <= S_end && S_end <= 17592186044416
+//@ assigns S_pos
+//@ ensures {C06,C11} old(S_pos) <= S_pos && S_pos <= S_end
+//@ ensures {C06} err != nil ==> result0 == nil
+//@ ensures {C01,C02} err == nil ==> forall i int :: 0 <= i && i < len(result0) ==> result0[i] == S_in[old(S_pos)+i] && result0[i] != 13
+//@ ensures {C01,C02} err == nil && old(S_pos) + len(result0) < S_end ==> S_in[old(S_pos)+len(result0)] == 13
+//@ ensures {C02} err == nil && old(S_pos) + len(result0) + 2 <= S_end ==> S_pos == old(S_pos) + len(result0) + 2
+//@ ensures {C11} err == nil && S_pos < old(S_pos) + len(result0) + 2 ==> S_pos == S_end
+//@ loop 0
+//@   invariant 0 <= n && n <= 1 && S_pos <= S_end && 0 <= buf_len[&readBytes]
+//@   invariant (n == 1 && err == nil) ==> S_pos == old(S_pos) + buf_len[&readBytes] + 1 && readByte[0] == S_in[S_pos-1]
+//@   invariant !(n == 1 && err == nil) ==> S_pos == old(S_pos) + buf_len[&readBytes]
+//@   invariant (err != nil) <==> (n == 0)
+//@   invariant err != nil && err != io.EOF ==> !errors.Is(err, io.EOF)
+//@   invariant err == io.EOF ==> S_pos == S_end
+//@   invariant len(readByte) == 1 && fresh(readByte)
+//@   invariant forall i int :: 0 <= i && i < buf_len[&readBytes] ==> buf_data[&readBytes][i] == S_in[old(S_pos)+i] && buf_data[&readBytes][i] != 13
+//@   decreases S_end - S_pos + n
+
+//@ func (*Parser).nextBulkMessage
+//@ requires parser.reader != nil
+//@ requires 0 <= S_pos && S_pos <= S_end && S_end <= 17592186044416
+//@ assigns S_pos
+//@ ensures {C06,C11} old(S_pos) <= S_pos && S_pos <= S_end
+//@ ensures {C06} (err == nil && result0 != nil) || (err != nil && result0 == nil)
+//@ ensures {C01} err == nil ==> fresh(result0) && result0.Type == BulkMessage && result0.array == nil
+
+//@ func (*Parser).nextArrayMessage
+//@ requires parser.reader != nil
+//@ requires 0 <= S_pos && S_pos <= S_end && S_end <= 17592186044416
+//@ assigns S_pos
+//@ decreases 3 * (S_end - S_pos) + 2
+//@ ensures {C06,C11} old(S_pos) <= S_pos && S_pos <= S_end
+//@ ensures {C06} (err == nil && result0 != nil) || (err != nil && result0 == nil)
+//@ ensures {C01} err == nil ==> fresh(result0) && result0.Type == ArrayMessage && result0.array != nil
+//@ ensures {C06,C11} err == nil ==> forall k int :: 0 <= k && k < len(result0.array.msgs) ==> result0.array.msgs[k] != nil
+
+//@ func newArrayWithParser
+//@ requires parser != nil && parser.reader != nil
+//@ requires 0 <= S_pos && S_pos <= S_end && S_end <= 17592186044416
+//@ flag alloc_bounded_by MaxArraySize
+//@ assigns S_pos
+//@ decreases 3 * (S_end - S_pos) + 1
+//@ ensures {C06,C11} old(S_pos) <= S_pos && S_pos <= S_end
+//@ ensures {C06} (err == nil && result0 != nil) || (err != nil && result0 == nil)
+//@ ensures {C06} err == nil ==> fresh(result0) && result0.index == 0
+//@ ensures {C06,C11} err == nil ==> forall k int :: 0 <= k && k < len(result0.msgs) ==> result0.msgs[k] != nil
+//@ loop 0
+//@   invariant 0 <= n && n <= arraySize && len(msgs) == arraySize && fresh(msgs)
+//@   invariant old(S_pos) <= S_pos && S_pos <= S_end
+//@   invariant forall k int :: 0 <= k && k < n ==> msgs[k] != nil
+//@   decreases arraySize - n
+
+//@ func (*Parser).Next
+//@ requires parser.reader != nil
+//@ requires 0 <= S_pos && S_pos <= S_end && S_end <= 17592186044416
+//@ assigns S_pos
+//@ decreases 3 * (S_end - S_pos)
+//@ ensures {C06,C11} old(S_pos) <= S_pos && S_pos <= S_end
+//@ ensures {C06} (result0 != nil && err == nil) || (result0 == nil && err == nil && old(S_pos) == S_end) || (result0 == nil && err != nil)
+//@ ensures {C06,C11} err == nil && result0 != nil && result0.Type == ArrayMessage ==> result0.array != nil && forall k int :: 0 <= k && k < len(result0.array.msgs) ==> result0.array.msgs[k] != nil
+//@ ensures {C02} err == nil && result0 != nil ==> old(S_pos) < S_pos
